@@ -775,7 +775,8 @@ class OpenDocument:
         assert(type(name)==type(u""))
 
         ncname = make_NCName(name)
-        if self._styles_dict == {}:
+        if self._styles_dict == {} and self.element_dict == {}:
+            # nothing has been indexed yet
             self.rebuild_caches()
         result=self._styles_dict.get(ncname, None)
 
